@@ -723,6 +723,8 @@ pub struct RunLog {
 }
 
 pub struct Shared {
+  pub publish: Mutex<Option<rx_inst::operators::publish::Publish<'static, V>>>,
+  pub connection: Mutex<Option<Subscription<'static>>>,
   pub env: Env,
   pub root: Mutex<Option<Ob>>,
   pub subs: Mutex<Vec<Option<Subscription<'static>>>>,
@@ -858,8 +860,22 @@ pub fn setup(case: &Case, log: &Arc<Mutex<RunLog>>) -> (Env, Arc<Shared>) {
     l.unsub_marks = vec![Vec::new(); nrec];
   }
   let env = Env::new(case);
-  let root = env.build(&case.root);
+  let src = env.build(&case.root);
+  let mut publish = None;
+  let root = match &case.conn {
+    None => src,
+    Some(ConnKind::Publish) => {
+      let p = src.publish();
+      let o = p.observable();
+      publish = Some(p);
+      o
+    }
+    Some(ConnKind::RefCount) => src.ref_count().observable(),
+    Some(ConnKind::Replay) => src.replay().observable(),
+  };
   let sh = Arc::new(Shared {
+    publish: Mutex::new(publish),
+    connection: Mutex::new(None),
     env: env.clone(),
     root: Mutex::new(Some(root)),
     subs: Mutex::new(vec![None; nrec]),
@@ -886,6 +902,21 @@ pub fn run_action(sh: &Arc<Shared>, a: &Action) {
       }
     }
     Action::Advance(ms) => arx_rt::sleep_ns(ms * 1_000_000),
+    Action::Connect => {
+      let p = lk(&sh.publish).clone();
+      if let Some(p) = p {
+        if lk(&sh.connection).is_none() {
+          let c = p.connect();
+          *lk(&sh.connection) = Some(c);
+        }
+      }
+    }
+    Action::Disconnect => {
+      let c = lk(&sh.connection).take();
+      if let Some(c) = c {
+        c.unsubscribe();
+      }
+    }
   }
 }
 
@@ -1025,6 +1056,12 @@ fn epilogue(case: &Case, opts: &RunOpts, log: &Arc<Mutex<RunLog>>, env: Env, sh:
       }
     }
   }
+  {
+    let c = lk(&sh.connection).take();
+    if let Some(c) = c {
+      c.unsubscribe();
+    }
+  }
   lk(&log).in_call = Some("final wait".into());
   if arx_rt::lib_threads_alive() > 0 {
     arx_rt::sleep_ns(opts.final_wait_ms * 1_000_000);
@@ -1041,6 +1078,7 @@ fn epilogue(case: &Case, opts: &RunOpts, log: &Arc<Mutex<RunLog>>, env: Env, sh:
   lk(&log).in_call = Some("drop handles".into());
   let ctx = env.ctx.clone();
   *lk(&sh.root) = None;
+  *lk(&sh.publish) = None;
   lk(&sh.subs).clear();
   for h in env.hots.iter() {
     if let Hot::Harness(core) = h {
